@@ -57,6 +57,9 @@ def build_menu():
     Y2 = [10, 29, 17, 1, 22, 18, 19]
     for alg in ("ff", "bfd", "bc", "tq", "dec"):
         pack(alg, Y, 40, "dict", "PartitionAndSumsTuple"); pack(alg, Y2, 40, "dict", "PartitionAndSumsTuple")
+    # optional list arguments of the ILP partitioner (they are inputs too: the caller's lists must come back unchanged)
+    part("ilp", A, 2, "list", "Sums", o="minsum", weights=[10, 2]); part("ilp", A, 2, "list", "Sums", o="minsum", weights=[2, 2])
+    part("ilp", [7, 7, 5, 3, 2], 3, "dict", "Partition", o="maxsum", weights=[6, 3, 3]); part("ilp", [4, 5, 6], 2, "list", "Sums", o="diff", copies=[2, 1, 1])
     # COLLISIONS: different inputs that agree on what a coarse cache key might be made of - the total, the number of items, the number of bins -
     # and on which the first (greedy) leaf of a search is not optimal, so that a stale bound or incumbent from an earlier call shows
     A7 = [5, 5, 4, 4, 3, 3, 3]; B3 = [10, 9, 8]; C7 = [9, 6, 5, 3, 2, 1, 1]          # all total 27; A7 and C7 have 7 items
@@ -106,8 +109,14 @@ def call(desc):
     if desc["fmt"] == "valueof":
         table = dict((n, valueof(n)) for n in items)
         valueof = table.__getitem__
-    before = digest([items, table])[0]
     kw = dict(desc["kw"])
+    # every list the call is given belongs to "the inputs": the items, the value table, and the optional per-bin weights / per-item copies of the ILP
+    extra = {}
+    if "weights" in kw:
+        extra["weights"] = list(kw["weights"])
+    if "copies" in kw:
+        extra["copies"] = list(kw["copies"]) if isinstance(kw["copies"], list) else kw["copies"]
+    before = digest([items, table, extra])[0]
     try:
         if desc["kind"] == "part":
             st = dict(alg=desc["alg"], o=kw.get("o", "diff"), kp=kw.get("kp", 0), d=kw.get("d", 0), it=kw.get("it", -1))
@@ -123,6 +132,7 @@ def call(desc):
                 pk["iterations"] = kw["it"]
             if kw.get("infeasible"):
                 pk["additional_constraints"] = lambda sums: [sums[0] == 1]
+            pk.update(extra)      # the very list objects whose digest was taken
             ret = prtpy.partition(algorithm=d.PART_ALGS[desc["alg"]](), numbins=desc["k"], items=items, valueof=valueof if desc["fmt"] == "valueof" else None,
                                   outputtype=d.OUTTYPES[desc["ot"]], **pk)
         else:
@@ -131,7 +141,7 @@ def call(desc):
         rd, rt = digest(["ret", ret])
     except Exception as e:
         rd, rt = digest(["raise", type(e).__name__, str(e)])
-    after = digest([items, table])[0]
+    after = digest([items, table, extra])[0]
     return rd, rt, before, after
 
 
